@@ -889,6 +889,43 @@ class Ctx:
         return out
 
 
+def option_outcome(ev, pred):
+    """On the path ev, was an Option-valued expression satisfying pred (e.g. `self.lengths.pop()`) found to be Some or
+    None?  Recognises `match e { Some/None }`, `if let Some(..) = e`, `let Some(..) = e else { .. }` and `e?`.
+    Returns 'some', 'none' or None (the path does not test such an expression)."""
+    def has(n):
+        return n is not None and any(pred(x) for x in walk(n))
+    out = None
+    for i, e in enumerate(ev):
+        if e.kind == "arm" and has(e.node.get("scrut")):
+            vs = pat_variants(e.node["arms"][e.extra]["pat"])
+            if any(str(v).endswith("Option::None") for v in vs):
+                out = "none"
+            elif any(str(v).endswith("Option::Some") for v in vs):
+                out = "some"
+            elif pat_is_catchall(e.node["arms"][e.extra]["pat"]):
+                # `_ =>` after a `Some(..)` arm is the None case; after a `None` arm the Some case
+                earlier = [v for a in e.node["arms"][:e.extra] for v in pat_variants(a["pat"])]
+                if any(str(v).endswith("Option::Some") for v in earlier):
+                    out = "none"
+                elif any(str(v).endswith("Option::None") for v in earlier):
+                    out = "some"
+        elif e.kind == "cond" and kind(peel(e.node)) == "LetExpr" and has(peel(e.node).get("init")):
+            vs = pat_variants(peel(e.node)["pat"])
+            some_pat = any(str(v).endswith("Option::Some") for v in vs)
+            none_pat = any(str(v).endswith("Option::None") for v in vs)
+            if some_pat:
+                out = "some" if e.extra is True else "none"
+            elif none_pat:
+                out = "none" if e.extra is True else "some"
+        elif e.kind == "let" and e.node.get("els") is not None and has(e.node.get("init")):
+            failed = any(x.kind == "cond" and x.node is e.node and x.extra is False for x in ev[i + 1:i + 2])
+            vs = pat_variants(e.node["pat"])
+            if any(str(v).endswith("Option::Some") for v in vs):
+                out = "none" if failed else "some"
+    return out
+
+
 def diverges(n):
     """Does evaluating block/expression n never complete normally (return/break/continue/panic)?"""
     if n is None:
